@@ -101,6 +101,9 @@ func runMint(seed int64, histories, steps int, out *Emitter) {
 			out.Emit(map[string]interface{}{"mod": "mint", "hist": hi, "i": i, "h": c.H, "pre": pre, "params": paramsJ(params), "op": "block", "ok": true, "post": post})
 			out.Count("mint.block", true)
 		}
+		if withGenesis {
+			genesisRoundTrip(c, hi, "mint", out)
+		}
 		c.Close()
 	}
 }
